@@ -278,4 +278,47 @@ def generate():
     for nm, i in sorted(TRACKED.items(), key=lambda kv: kv[1]):
         t += 'def g_%s : Nat := %d\n' % (nm, i)
     t += '\nend RTV.Gen.DateRegexEn\n'
-    return [(os.path.join(GEN, 'DateRegexEn.lean'), t)]
+    return [(os.path.join(GEN, 'DateRegexEn.lean'), t), (os.path.join(GEN, 'DateLayoutsEn.lean'), layouts_text())]
+
+
+TOKS = {'y': '.y', 'm': '.m', 'm02': '.m02', 'd': '.d', 'd02': '.d02', 'mon': '.mon', 'abbr': '.abbr', 'dord': '.dord'}
+
+
+def layout_tokens(template):
+    """`{mon} {dord}, {y}` -> ['.mon', '.lit 32', '.dord', '.lit 44', '.lit 32', '.y'] (None for an unknown placeholder)"""
+    out = []
+    for m in re.finditer(r'\{(\w+)\}|(.)', template, flags=re.S):
+        if m.group(1):
+            if m.group(1) not in TOKS:
+                return None
+            out.append(TOKS[m.group(1)])
+        else:
+            out.append('.lit %d' % ord(m.group(2)))
+    return out
+
+
+def layouts_text():
+    """the English layouts of the committed contract /verif/contracts/C06.json as token lists (Props/C06Front quantifies
+    over this list) + the contract's month names"""
+    import json
+    with open(os.path.join(common.VERIF, 'contracts', 'C06.json'), encoding='utf-8') as f:
+        c = json.load(f)
+    t = HEADER % ('dateregex', 'contracts/C06.json (layouts, months, abbr of en-us)')
+    t += 'import RTV.Model.DateFront\nnamespace RTV.Gen.DateLayoutsEn\nopen RTV.DateFront\n\n'
+    rows = c['layouts']['en-us']
+    names = []
+    for i, row in enumerate(rows):
+        toks = layout_tokens(row['template'])
+        if toks is None:
+            t += '-- layout %d: %s — placeholder outside the token set\n\n' % (i, row['template'])
+            continue
+        t += '/-- `%s` (%s) -/\ndef layout%d : List Tok := [%s]\n\n' % (row['template'], row['family'], i, ', '.join(toks))
+        names.append('layout%d' % i)
+    t += '/-- every English layout of the contract -/\ndef layoutsEn : List (List Tok) := [%s]\n\n' % ', '.join(names)
+
+    def strs(lst):
+        return '[' + ', '.join('[' + ', '.join(str(ord(ch)) for ch in s) + ']' for s in lst) + ']'
+    t += '/-- `months` / `abbr` of the contract -/\ndef namesEn : Names := ⟨%s,\n  %s⟩\n\n' % (
+        strs(c['months']['en-us']), strs(c['abbr']['en-us']))
+    t += 'end RTV.Gen.DateLayoutsEn\n'
+    return t
